@@ -729,6 +729,7 @@ int main(int argc, char **argv) {
     vc::GenOpts o = optsFor(g, k);
     c = vc::genCircuit(g, o);
     p = vd::genParams(g, k % 2 == 1);
+    if (k % 8 == 5) vc::translate(c, g.range(-(1ll << 26), 1ll << 26), g.range(-(1ll << 26), 1ll << 26));  // far from the origin
   };
   auto primCase = [&](long long k, Circuit &c, vd::Params &p, vh::Rng &g) {
     g = vh::Rng::forCase(a.seed ^ 0x5bd1e995u, k);
